@@ -823,3 +823,11 @@ M('seed12-C05-topics-message-takes-the-subscription-template', ['C05', 'C01'], Z
 M('seed12-C09-shape-data-default-is-one-shared-dict', ['C09'], FR, "        data:   Union[dict, 'Frame', None] = None,\n        format: Union[str, 'Frame', None] = None,\n    ):\n        if isinstance(image, dict):", "        data:   Union[dict, 'Frame', None] = {},\n        format: Union[str, 'Frame', None] = None,\n    ):\n        if isinstance(image, dict):", ['C09.R15'])
 M('seed12-C12-shape-probe-answer-read-off-the-class-hierarchy', ['C12'], CLI, '    if (filter_type := filter_cls.FILTER_TYPE) == "Input":\n        return True\n', '    if (can_do := getattr(filter_cls, "_can_do_filter_outputs", None)) is not None:\n        return can_do\n\n    if (filter_type := filter_cls.FILTER_TYPE) == "Input":\n        return True\n', ['C12.R15'])
 M('seed12-C15-tcp-port-pattern-takes-password-for-port', ['C15'], Z, "TCP_RE_ADDR           = re.compile(r'^(.*?)(?::(\\d+))?$')", "TCP_RE_ADDR           = re.compile(r'^(.*?)(?::([^:/\\]]+))?$')", ['C15.R8'])
+M('d96-telemetry-provider-left-running', ['C16'], F, "                provider.shutdown()\n            except Exception as exc:\n                logger.warning(f'telemetry shutdown: {exc}')", "                pass\n            except Exception as exc:\n                logger.warning(f'telemetry shutdown: {exc}')", ['C16.R13'])
+M('d97-model-info-added-after-the-masking', ['C15'], F, "            facets['models'] = hide_uri_users_and_pwds_deep(FilterContext.get_model_info())  #", "            facets['models'] = FilterContext.get_model_info()  #", ['C15.R1'])
+M('sweep12-got-partial-and-empty-swapped', ['C01'], Z, "                'none' if c == len(recvd) else", "                'none' if c != len(recvd) else", ['C01.R19'])
+M('sweep12-got-all-when-something-is-missing', ['C01'], Z, "                'all'  if not (c := sum(v is None for v in recvd.values())) else", "                'all'  if (c := sum(v is None for v in recvd.values())) else", ['C01.R19'])
+M('sweep12-ipc-files-removed-when-they-are-NOT-ours', ['C06'], Z, "if os.stat(fnm).st_ino == self.ipc_inodes.get(fnm):", "if os.stat(fnm).st_ino != self.ipc_inodes.get(fnm):", ['C06.R17'])
+M('sweep12-ephemeral-level-subtracts', ['C05'], Z, "if (ephemeral := addr_connect.endswith('?') + addr_connect.endswith('??')):", "if (ephemeral := addr_connect.endswith('?') - addr_connect.endswith('??')):", ['C05.R15'])
+M('sweep12-doubly-ephemeral-gets-a-request-socket', ['C05'], Z, "push = context.socket(zmq.PUSH) if ephemeral < 2 else None", "push = context.socket(zmq.PUSH) if ephemeral <= 2 else None", ['C05.R15'])
+M('sweep12-doubly-ephemeral-is-sent-requests', ['C05'], Z, "            if self.ephemeral < 2:  # do not anything to doubly-ephemeral channels", "            if self.ephemeral <= 2:  # do not anything to doubly-ephemeral channels", ['C05.R15'])
